@@ -3,30 +3,35 @@ import PyatvModel.C03.Model
 /-
 Line protocol (one script per line, stateless):
 
-  keyed <removeOnTimeout 0|1> <dispatchUnmatched 0|1> <base> <script>
+  keyed <removeOnTimeout 0|1> <dispatchUnmatched 0|1> <typed 0|1> <base> <script>
   fifo <script>
   rtsp <script>
 
-script = comma separated events:  s | b | r<key|n>:<payload> | t<request>      ("-" = empty)
+script = comma separated events:  s | b | r<key|n>:<payload> | e<key|n>:<payload> (event) |
+         o<key|n>:<payload> (other non-response) | t<request>      ("-" = empty)
 answer = per event the outputs `snt:r:k dlv:r:k:v dsp:k:v drp:k:v tmo:r flt:r` joined by ","
          ("-" = none), events joined by ";"   ("=" for the empty script)
 -/
 namespace PyatvModel.C03
+
+def parseMsg (rest : List Char) (mk : Option Nat → Nat → Ev) : Option Ev :=
+  match (String.ofList rest).splitOn ":" with
+  | [k, v] =>
+      match v.toNat? with
+      | some v =>
+          if k == "n" then some (mk none v)
+          else k.toNat?.map fun k => mk (some k) v
+      | none => none
+  | _ => none
 
 def parseEv (tok : String) : Option Ev :=
   match tok.toList with
   | ['s'] => some .send
   | ['b'] => some .burn
   | 't' :: rest => (String.ofList rest).toNat?.map Ev.timeout
-  | 'r' :: rest =>
-      match (String.ofList rest).splitOn ":" with
-      | [k, v] =>
-          match v.toNat? with
-          | some v =>
-              if k == "n" then some (.recv none v)
-              else k.toNat?.map fun k => .recv (some k) v
-          | none => none
-      | _ => none
+  | 'r' :: rest => parseMsg rest Ev.recv
+  | 'e' :: rest => parseMsg rest (Ev.msg .event)
+  | 'o' :: rest => parseMsg rest (Ev.msg .other)
   | _ => none
 
 def parseScript (s : String) : Option (List Ev) :=
@@ -42,10 +47,11 @@ def bool? : String → Option Bool
 
 def handle (_ : Unit) (ws : List String) : Unit × String :=
   match ws with
-  | ["keyed", rm, dp, base, script] =>
-      match bool? rm, bool? dp, base.toNat?, parseScript script with
-      | some rm, some dp, some b, some evs => ((), showTrace (runT (kstep ⟨rm, dp⟩) (kinit b) evs))
-      | _, _, _, _ => ((), "bad-op")
+  | ["keyed", rm, dp, ty, base, script] =>
+      match bool? rm, bool? dp, bool? ty, base.toNat?, parseScript script with
+      | some rm, some dp, some ty, some b, some evs =>
+          ((), showTrace (runT (kstep ⟨rm, dp, ty⟩) (kinit b) evs))
+      | _, _, _, _, _ => ((), "bad-op")
   | ["fifo", script] =>
       match parseScript script with
       | some evs => ((), showTrace (runT fstep finit evs))
